@@ -69,13 +69,83 @@ let () =
     match scv_create O req xi, scv_create O req xl with
     | Some ci, Some cl -> dump_scv r ci cl
     | _ -> raise Reject in
+  (* ---------------- sharing stream (C03Heap.v): two heaps (inputs, labels) driven in lock-step, 8 handles:
+     0..5 registers, 6 = dataset inside the fold object, 7 = dataset inside the DataView.  Every handle is printed
+     after every operation, with both shapes, and the pairs of handles whose batch-pointer lists are equal. *)
+  let nh = 8 in
+  let sh_in : (nat, string) state ref = ref (init "()" (nat_of_int nh)) in
+  let sh_lab : (nat, string) state ref = ref (init "()" (nat_of_int nh)) in
+  let sh_folds : nat list list ref = ref [] in
+  let sh_reset () = sh_in := init "()" (nat_of_int nh); sh_lab := init "()" (nat_of_int nh); sh_folds := [] in
+  let dump_all () =
+    let b = Buffer.create 512 in
+    for h = 0 to nh - 1 do
+      let hn = nat_of_int h in
+      Buffer.add_string b (Printf.sprintf " H%d=%s hs%d=%s hl%d=%s" h (dump_data (contents "()" !sh_in hn) (contents "()" !sh_lab hn))
+                             h (hnd "()" !sh_in hn).h_shape h (hnd "()" !sh_lab hn).h_shape)
+    done;
+    let eqs st =
+      let acc = Buffer.create 32 in
+      for i = 0 to nh - 1 do for j = i + 1 to nh - 1 do
+          if (hnd "()" st (nat_of_int i)).h_ids = (hnd "()" st (nat_of_int j)).h_ids then Buffer.add_string acc (Printf.sprintf "%d%d," i j)
+        done done;
+      if Buffer.length acc = 0 then "-" else Buffer.contents acc in
+    Buffer.add_string b (" eqi=" ^ eqs !sh_in ^ " eql=" ^ eqs !sh_lab);
+    Buffer.contents b in
+  let apply2 (oi : (nat, string) op) (ol : (nat, string) op) =
+    match step O "()" oi !sh_in, step O "()" ol !sh_lab with
+    | Some x, Some y -> sh_in := x; sh_lab := y; dump_all ()
+    | _ -> raise Reject in
+  (* operations that refuse shared containers: the exception is the documented behaviour, everything else outside the domain *)
+  let apply2_indep r oi ol =
+    if independent "()" !sh_in (nat_of_int r) && independent "()" !sh_lab (nat_of_int r) then apply2 oi ol else " EXC" in
+  let dump_folds () = " folds=" ^ String.concat ";" (List.map (fun f -> String.concat "," (List.map (fun i -> string_of_int (int_of_nat i)) f)) !sh_folds) in
+  let shared cmd a rest =
+    let n_ i = nat_of_int a.(i) in
+    match cmd.[1] with
+    | 'N' ->
+      let r = a.(0) and n = a.(1) and m = a.(2) in
+      let labs = nl (Array.to_list (Array.sub a 3 n)) and ids = nl (Array.to_list (Array.sub a (3 + n) n)) in
+      let m' = nat_of_int (if m = 0 then 256 else m) in
+      apply2 (OCreate (nat_of_int r, shape0, ids, m')) (OCreate (nat_of_int r, "()", labs, m'))
+    | 'C' -> apply2 (OCopy (n_ 0, n_ 1)) (OCopy (n_ 0, n_ 1))
+    | 'Z' -> apply2 (OClear (n_ 0)) (OClear (n_ 0))
+    | 'I' -> apply2 (OSubset (n_ 0, n_ 1, rest 2)) (OSubset (n_ 0, n_ 1, rest 2))
+    | 'K' -> apply2 (OSubset3 (n_ 0, n_ 1, n_ 2, rest 3)) (OSubset3 (n_ 0, n_ 1, n_ 2, rest 3))
+    | 'L' -> apply2_indep a.(0) (OSplice (n_ 0, n_ 1, n_ 2)) (OSplice (n_ 0, n_ 1, n_ 2))
+    | 'A' -> apply2 (OAppend (n_ 0, n_ 1)) (OAppend (n_ 0, n_ 1))
+    | 'B' -> apply2 (OPushBack (n_ 0, n_ 1, n_ 2)) (OPushBack (n_ 0, n_ 1, n_ 2))
+    | 'W' -> apply2 (OWrite (n_ 0, n_ 1, n_ 2)) (OWrite (n_ 0, n_ 1, n_ 3))
+    | 'V' -> apply2 (OWriteBatch (n_ 0, n_ 1, n_ 2, n_ 3)) (OWriteBatch (n_ 0, n_ 1, n_ 2, n_ 4))
+    | 'M' -> apply2 (OMakeIndep (n_ 0)) (OMakeIndep (n_ 0))
+    | 'P' -> apply2_indep a.(0) (ORepartition (n_ 0, rest 1)) (ORepartition (n_ 0, rest 1))
+    | 'S' -> apply2_indep a.(0) (OSplitBatch (n_ 0, n_ 1, n_ 2)) (OSplitBatch (n_ 0, n_ 1, n_ 2))
+    | 'O' -> apply2 (OReorder (n_ 0, rest 1)) (OReorder (n_ 0, rest 1))
+    | 'G' ->
+      (match cv_indexed_shared O "()" (n_ 0) (nat_of_int 6) (rest 3) (n_ 1) (n_ 2) !sh_in,
+             cv_indexed_shared O "()" (n_ 0) (nat_of_int 6) (rest 3) (n_ 1) (n_ 2) !sh_lab with
+       | Some (x, f), Some (y, _) -> sh_in := x; sh_lab := y; sh_folds := f; let d = dump_all () in d ^ dump_folds ()
+       | _ -> raise Reject)
+    | 'T' ->
+      if a.(1) >= List.length !sh_folds then raise Reject else
+      apply2 (fold_training_shared "()" (nat_of_int 6) (n_ 0) !sh_folds (n_ 1) !sh_in)
+             (fold_training_shared "()" (nat_of_int 6) (n_ 0) !sh_folds (n_ 1) !sh_lab)
+    | 'U' ->
+      if a.(1) >= List.length !sh_folds then raise Reject else
+      apply2 (fold_validation_shared (nat_of_int 6) (n_ 0) !sh_folds (n_ 1)) (fold_validation_shared (nat_of_int 6) (n_ 0) !sh_folds (n_ 1))
+    | 'D' -> apply2 (view_shared (n_ 0) (nat_of_int 7)) (view_shared (n_ 0) (nat_of_int 7))
+    | 'E' ->
+      (match view_write "()" (nat_of_int 7) (n_ 0) (n_ 1) !sh_in, view_write "()" (nat_of_int 7) (n_ 0) (n_ 2) !sh_lab with
+       | Some oi, Some ol -> apply2 oi ol
+       | _ -> raise Reject)
+    | _ -> " ?" in
   (try
     while true do
       let l = input_line ic in
       let toks = List.filter (fun x -> x <> "") (String.split_on_char ' ' l) in
       match toks with
       | [] -> print_newline ()
-      | "C" :: s :: _ -> Array.fill regs 0 4 empty; Printf.printf "C %s\n" s
+      | "C" :: s :: _ -> Array.fill regs 0 4 empty; sh_reset (); Printf.printf "C %s\n" s
       | cmd :: args ->
         let a = Array.of_list (List.map int_of_string args) in
         let rest k = nl (Array.to_list (Array.sub a k (Array.length a - k))) in
@@ -193,6 +263,7 @@ let () =
                  ^ " rsecond=" ^ String.concat "," (List.init n (fun t -> string_of_int (t mod a.(1))))
              | "CT" -> let r = a.(0) in let k = nat_of_int a.(1) in
                run_cv r (ReqBatch (rest 2, k)) true
+             | _ when String.length cmd = 2 && cmd.[0] = 'X' -> shared cmd a rest
              | _ -> " ?")
           with Reject -> " REJECT" | Invalid_argument _ -> " REJECT" in
         Printf.printf "%s ->%s\n" l out
